@@ -166,11 +166,40 @@ fn build(dump: &str) -> Option<Handle> {
     Some(doc)
 }
 
+/// a writer that, like a pipe or a socket, takes at most `max` bytes per `write` call
+pub struct ShortWriter {
+    pub data: Vec<u8>,
+    pub max: usize,
+}
+
+impl std::io::Write for ShortWriter {
+    fn write(&mut self, buf: &[u8]) -> std::io::Result<usize> {
+        let n = buf.len().min(self.max);
+        self.data.extend_from_slice(&buf[..n]);
+        Ok(n)
+    }
+    fn flush(&mut self) -> std::io::Result<()> {
+        Ok(())
+    }
+}
+
 fn ser_and_reparse(doc: Handle) -> String {
     let mut buf: Vec<u8> = vec![];
     let h: SerializableHandle = doc.into();
     if serialize(&mut buf, &h, Default::default()).is_err() {
         return "io-error".into();
+    }
+    // the bytes written must not depend on how much the writer takes per call (`Write::write` may be partial)
+    for max in [1usize, 3, 7] {
+        let mut w = ShortWriter { data: vec![], max };
+        if serialize(&mut w, &h, Default::default()).is_err() || w.data != buf {
+            return format!(
+                "io-short-write max={} wrote={} expected={}",
+                max,
+                dhex(&String::from_utf8_lossy(&w.data)),
+                dhex(&String::from_utf8_lossy(&buf))
+            );
+        }
     }
     let text = String::from_utf8_lossy(&buf).into_owned();
     let mut parser = parse_document(RcDom::default(), Default::default());
